@@ -27,11 +27,14 @@ func (p *LastUsedPoller) Get() transport.TransportID {
 		// not attached to a multi transport yet: nothing to select.
 		return ""
 	}
+	p.tr.mu.RLock()
+	current := p.tr.currentTransportID
+	p.tr.mu.RUnlock()
 	p.tr.lastReadTransportIDmu.RLock()
 	defer p.tr.lastReadTransportIDmu.RUnlock()
 	tID := p.tr.lastReadTransportID
 	if tID != "" {
-		return p.tr.currentTransportID
+		return current
 	}
 	return p.tr.lastReadTransportID
 }
